@@ -3,6 +3,8 @@ import PycModel.Lexer
 import PycModel.Parser.Stmt
 import PycModel.Generator
 import PycModel.Reflect
+import PycModel.Cpp
+import PycModel.Generated.FakeHeaders
 import PycModel.Spec.Expr
 import PycModel.Spec.Decl
 import PycModel.Spec.Stmt
@@ -129,6 +131,14 @@ def handle (line : String) : String :=
     match (parseText Generated.lexCfg 100000 text file).1 with
     | .ast v => "OK\t" ++ escape (reprVal v)
     | _ => "NOPARSE"
+  | ["cost", file, text] =>
+    match parseText Generated.lexCfg 100000 text file with
+    | (.ast _, some st) => "OK\t" ++ toString st.ticks ++ "\t" ++ toString st.lexCalls ++ "\t" ++ toString st.buf.size
+    | (.ast _, none) => "OK?"
+    | _ => "NOPARSE"
+  | ["cpp", hs] =>
+    let fs : Cpp.FS := Generated.fakeFS.map fun d => ⟨d.name, d.guard, d.includes, d.hasBody⟩
+    " ".intercalate (Cpp.pp fs (if hs.isEmpty then [] else hs.splitOn ","))
   | op :: _ => "BADOP " ++ op
   | [] => "BADOP"
 
